@@ -181,6 +181,8 @@ def gen_real_case(rng, cid, max_len=3, max_depth=2, allow=None, short_prob=0.0, 
         ns = int(rng.integers(1, 4))
         nu = int(rng.integers(0, 3))
         ep = bool(rng.random() < 0.75) if force_ep is None else force_ep
+        if force_ep is None and use_pool and cid < len(CHAIN_POOL) and cid not in POOL_SINGLE_EPISODE:
+            ep = (cid % 8 != 7)         # the fixed pool: an episode feature whatever the random stream does (one entry without)
         if use_pool and cid < len(CHAIN_POOL) and set(sg.kinds_of(('pipe', CHAIN_POOL[cid]))) <= set(allow) | {'split', 'pipe'}:
             chain = CHAIN_POOL[cid]; ns, nu = 2, 1
             d = (ns, nu)
@@ -206,7 +208,7 @@ def gen_real_case(rng, cid, max_len=3, max_depth=2, allow=None, short_prob=0.0, 
                                         max_eps=max_eps if ep else 1, extra=4,
                                         many=True if (ep and max_eps >= 3 and cid % 40 == 7) else None,
                                         # the fixed pool of pipelines meets non-contiguous arrangements whatever the random stream does
-                                        mode=(['interleave', 'shuffleblocks', 'interleave', 'desc'][cid % 4] if cid < len(CHAIN_POOL) else None))
+                                        mode=(['interleave', 'chunks', 'interleave', 'desc', 'chunks', 'shuffleblocks'][cid % 6] if cid < len(CHAIN_POOL) else None))
             if not ep:
                 order = [0] * len(order)
             if len(set(order)) >= min_eps or not ep:
